@@ -120,7 +120,13 @@ OutsideChar(Bt) ==
 FirstAdmitted(e, t) ==
   LET vs == Values(e, t, 2)
       ok == SelectSeq(vs, LAMBDA x : ConAdmits(e, t, x))
-  IN IF ok = <<>> THEN vs[1] ELSE ok[1]
+      \* constraints in series (a range on a reference inside the range of the type): TypeGen's table of the base type may
+      \* hold no admitted value; the largest lower bound is one whenever the intersection is not empty
+      ics == SelectSeq(IntCons(e, t), LAMBDA c : c.f = "R" /\ ~c.ext /\ ~c.lbinf)
+      top == FoldLeft(LAMBDA acc, c : IF Leq(acc, c.lb) THEN c.lb ELSE acc, ics[1].lb, ics)
+  IN IF ok # <<>> THEN ok[1]
+     ELSE IF Base(e, t).k = "INT" /\ ics # <<>> /\ ConAdmits(e, t, top) THEN top
+     ELSE vs[1]
 
 \* the value v of base type Bt cut / extended to size n
 ResizeLeaf(e, Bt, v, n) ==
